@@ -20,7 +20,8 @@ RULE = ("every connected labelled multigraph topology of the listed levels x kin
         "(exact, per class; ladders of 1..3 (thorough 4) sections over six source/series/shunt patterns with up to 6 (8) states are added and identified at 16 frequencies) has full degree and no root at 0; for each circuit every source column and every output "
         "(all node potentials, all element voltages, all element currents, all states) is compared at 10 frequencies with the "
         "phasor response to that source alone; states = distinct circuits judged, transitions = (circuit, frequency, source) "
-        "transfer-function evaluations; non-trivial = circuit whose transfer function is not identically zero")
+        "transfer-function evaluations; non-trivial = circuit whose transfer function is not identically zero"
+        ' Additions: output selections of the circuit-level wrapper (unequal lengths, reversed, empty); every second id scheme uses node names that are element ids.')
 ASSUMPTIONS = ["numpy.linalg accuracy on the palettes", "10 frequency points exceed 2n+2 for n <= 3 states, which identifies the rational functions",
                "the ground placement rotates with the enumeration index instead of forming a full product"]
 EXPLANATION = "direct exploration of nodal_state_space_model and Circuit.state_space_model against the exact pencil reference"
